@@ -117,11 +117,11 @@ func Acceptable(h []byte) []string {
 	if in(FCR2) || in(FRW2) {
 		drop(FTIFF)
 	}
+	// among ftyp files the brand decides; the major brand "crx " excludes the others, while a
+	// brand list that names both avif and heic carries both signatures and the property ranks
+	// neither above the other
 	if in(FCR3) {
 		drop(FAVIF)
-		drop(FHEIF)
-	}
-	if in(FAVIF) {
 		drop(FHEIF)
 	}
 	return c
